@@ -152,3 +152,70 @@ def close_requires_ownership(repo: Repo, module: str, cls: str, connect_call: st
                                           f"{shared}; it is {'guarded' if ok else 'NOT guarded'} by an ownership test",
                                           n.lineno))
     return out
+
+
+def keyed_lock_structure(repo: Repo, module: str, cls: str, method: str, main_lock: str, tables=("self._locks", "self._refs")):
+    """Structural obligations of a generator-based keyed lock (decided on the AST of the real method):
+    the two table-updating sections run under the main lock without any await / yield inside; the caller's block
+    (`yield`) runs while the per-key lock is held; deregistration is in the `finally` of the try that holds the yield
+    (so that holders AND cancelled waiters deregister); every other access to the tables is the read of the key's lock
+    for acquiring it."""
+    m = repo.module(module)
+    fi = m.classes[cls].methods[method]
+    par = parents(fi.node)
+    out = []
+    pre = f"{module}.{cls}.{method}"
+    withs = sorted([n for n in ast.walk(fi.node) if isinstance(n, (ast.With, ast.AsyncWith))],
+                   key=lambda n: (n.lineno, n.col_offset))
+    main = [w for w in withs if any(ast.unparse(i.context_expr) == main_lock for i in w.items)]
+    keyw = [w for w in withs if any(ast.unparse(i.context_expr).startswith("self._locks[") for i in w.items)]
+    out.append(ob(f"{pre}/two-main-lock-sections", len(main) == 2 and len(keyw) == 1,
+                  f"{len(main)} sections under {main_lock}, {len(keyw)} under the per-key lock", fi.lineno))
+    # atomic sections: no await / yield inside the main-lock blocks
+    for k, w in enumerate(main, 1):
+        inner = [n for st in w.body for n in ast.walk(st) if isinstance(n, (ast.Await, ast.Yield, ast.YieldFrom,
+                                                                           ast.AsyncWith, ast.AsyncFor))]
+        out.append(ob(f"{pre}/atomic-section-{k}@L{w.lineno}", not inner,
+                      f"the section under {main_lock} at line {w.lineno} contains "
+                      f"{'no' if not inner else 'an'} await / yield (no other coroutine can interleave)", w.lineno))
+    # table accesses are under the main lock, except the read of the key's lock in the per-key with item
+    for n in ast.walk(fi.node):
+        if isinstance(n, ast.Attribute) and ast.unparse(n) in tables:
+            ok = under_lock(n, par, main_lock)
+            if not ok:
+                cur, in_item = n, False
+                while cur in par:
+                    p = par[cur]
+                    if isinstance(p, ast.withitem) and any(p in w.items for w in keyw):
+                        in_item = True
+                    cur = p
+                ok = in_item and isinstance(n.ctx, ast.Load)
+            out.append(ob(f"{pre}/table-access@L{n.lineno}:{n.col_offset}", ok,
+                          f"`{ast.unparse(n)}` at line {n.lineno} is {'' if ok else 'NOT '}under {main_lock} "
+                          f"(or the read of the key's lock to acquire it)", n.lineno))
+    # the yield runs under the per-key lock, inside a try whose finally holds the second main-lock section
+    ys = [n for n in ast.walk(fi.node) if isinstance(n, (ast.Yield, ast.YieldFrom))]
+    out.append(ob(f"{pre}/single-yield", len(ys) == 1, f"{len(ys)} yield(s)", fi.lineno))
+    for y in ys:
+        held = bool(keyw) and any(_inside(y, w, par) for w in keyw)
+        out.append(ob(f"{pre}/yield-under-key-lock@L{y.lineno}", held,
+                      f"the caller's block runs {'while' if held else 'WITHOUT'} holding the key's lock", y.lineno))
+        trys = [t for t in ast.walk(fi.node) if isinstance(t, ast.Try) and any(_inside(y, s, par) or s is y for s in t.body)]
+        fin_ok = len(main) == 2 and any(any(main[1] is s or _inside(main[1], s, par) for s in t.finalbody) for t in trys)
+        out.append(ob(f"{pre}/deregister-in-finally@L{y.lineno}", fin_ok,
+                      "the deregistration section is in the `finally` of the try that contains the yield: it runs for "
+                      "holders, for failing blocks and for waiters cancelled while waiting for the key's lock"
+                      if fin_ok else "the deregistration section is NOT in a finally around the yield", y.lineno))
+        reg_first = len(main) == 2 and main[0].lineno < min((t.lineno for t in trys), default=10 ** 9)
+        out.append(ob(f"{pre}/register-before-try@L{y.lineno}", reg_first,
+                      "registration happens before the try (a coroutine deregisters only what it registered)", y.lineno))
+    return out
+
+
+def _inside(node, container, par) -> bool:
+    cur = node
+    while cur in par:
+        cur = par[cur]
+        if cur is container:
+            return True
+    return False
